@@ -141,7 +141,11 @@ def display(v):
 
 
 FORMS = {"first": "probe_echo_first", "last": "probe_echo_last", "none": "probe_none", "error": "probe_error", "errtext": "probe_error_text", "only1": "probe_only_in_first"}
-LIBFILE = {1: "./libprobe.so", 2: "./libprobe2.so", "missing": "./no_such_library.so"}
+# missing libraries: a path that does not exist, and BARE names (no slash: the system loader looks them up itself) that do not
+# exist either but are spelled like something an earlier call of the same program has loaded - the internal name (SONAME) the
+# probe builds carry, and the file name of a library that was opened through its path
+LIBFILE = {1: "./libprobe.so", 2: "./libprobe2.so", "missing": "./no_such_library.so", "missing-soname": "libmsv_ffi_probe.so", "missing-bare": "libprobe.so", "missing-bare2": "libprobe2.so"}
+MISSING = ("missing", "missing-soname", "missing-bare", "missing-bare2")
 # the same two builds under file names that do not follow `lib<name>.so`: a versioned name, an own extension, no extension, a
 # dotted directory.  Next to each lies a DECOY - the other build under the name a "normalised" spelling would give - so that
 # opening anything but the named file shows in the tag of the output (or as a missing library).
@@ -189,7 +193,7 @@ def build(case):
         instrs += one
         if failed is not None:
             continue
-        if lib == "missing":
+        if lib in MISSING:
             failed = "Could not open FFI Library"
             continue
         if c.get("symbol") or (form == "only1" and BUILD_OF(lib) == 2):
@@ -247,7 +251,7 @@ def check(case):
     sc = build(case)
     res, fails, _ = scenario.execute(sc)
     kinds = set(k for c in calls for k, _ in c["args"])
-    faulty = any(c["lib"] == "missing" or c.get("symbol") or c["form"] in ("error", "errtext") or (c["form"] == "only1" and BUILD_OF(c["lib"]) == 2) for c in calls)
+    faulty = any(c["lib"] in MISSING or c.get("symbol") or c["form"] in ("error", "errtext") or (c["form"] == "only1" and BUILD_OF(c["lib"]) == 2) for c in calls)
     nt = any(len(c["args"]) >= 2 and len(set(k for k, _ in c["args"])) >= 2 for c in calls) or faulty or len(calls) >= 2
     labels = ["calls=%d" % len(calls), "libs=%d" % len(set(c["lib"] for c in calls))] + ["form=" + c["form"] for c in calls] + ["argc=%d" % len(c["args"]) for c in calls] + \
              ["kind=" + k for k in kinds] + (["fault"] if faulty else [])
@@ -310,7 +314,10 @@ def enumerated(tier, seed):
                 for f2 in ("first", "last", "none", "error", "errtext", "only1"):
                     cases.append({"calls": [C(l1, f1, a1), C(l2, f2, a2)]})
     for l1 in (1, 2):
-        cases.append({"calls": [C(l1, "first", a1), C("missing", "first", a2)]})
+        for m in MISSING:
+            cases.append({"calls": [C(l1, "first", a1), C(m, "first", a2)]})
+            cases.append({"calls": [C(l1, "none", a1), C(3 - l1, "last", a2), C(m, "last", a1), C(l1, "first", a2)]})
+            cases.append({"calls": [C(m, "first", a1)]})
         cases.append({"calls": [C(l1, "first", a1), C(3 - l1, "first", a2, "probe_does_not_exist")]})
         cases.append({"calls": [C(l1, "first", a1), C(l1, "first", a2), C(3 - l1, "last", a1), C(l1, "none", [])]})
         cases.append({"calls": [C(l1, "first", a1), C(l1, "error", a2), C(l1, "first", a1)]})
@@ -348,7 +355,7 @@ def sequences(draw):
     for _ in range(g.weighted([(5, 1), (3, 2), (2, 3), (1, 4)])):
         args = draw(vectors())
         fault = g.weighted([(12, None), (1, "missing-library"), (1, "missing-symbol")])
-        calls.append({"lib": "missing" if fault == "missing-library" else g.choice([1, 1, 2] + (list(NAMED) if g.chance(30) else [])), "form": g.choice(["first", "last", "none", "error", "errtext", "only1", "first", "last"]),
+        calls.append({"lib": g.choice(list(MISSING)) if fault == "missing-library" else g.choice([1, 1, 2] + (list(NAMED) if g.chance(30) else [])), "form": g.choice(["first", "last", "none", "error", "errtext", "only1", "first", "last"]),
                       "args": args, "symbol": "probe_does_not_exist" if fault == "missing-symbol" else None, "use": g.weighted([(6, "print"), (2, "discard"), (2, "store")])})
     return {"calls": calls, "ctx": ctx} if len(calls) == 1 else {"calls": calls}
 
